@@ -32,6 +32,7 @@ def check(repo: Repo, rep, tier):
     rep.not_decided = "equality of the output across interpreter processes as such; dict iteration is insertion order and part of the value (deliberately not armed)"
     no_nondet(repo, rep)
     set_order(repo, rep)
+    set_iter(repo, rep)
     fmt_optional(repo, rep)
     fmt_taint_fragment(repo, rep)
 
@@ -87,19 +88,25 @@ def no_nondet(repo: Repo, rep):
         rep.undecided("R-NO-NONDET", "positive example not matched (rule broken)")
 
 
+# functions that give the *generated code* of a value (`repr` is patched to the code repr while code is
+# generated); the builtin repr captured as real_repr, str() etc. are not stable: they follow hash order
+# for nested sets and print addresses for objects without __repr__
+CODE_TEXT = ("repr", "code_repr", "mocked_code_repr")
+
+
 def _is_text_sorted(e: ast.AST) -> bool:
     """sorted(xs, key=<text function>) or sorted(map(repr, xs)) / sorted of reprs: a total, value-independent order."""
     if not (isinstance(e, ast.Call) and norm(e.func) == "sorted" and e.args):
         return False
     for k in e.keywords:
-        if k.arg == "key" and norm(k.value) in ("repr", "code_repr", "str", "mocked_code_repr", "real_repr"):
+        if k.arg == "key" and norm(k.value) in CODE_TEXT:
             return True
-        if k.arg == "key" and isinstance(k.value, ast.Lambda) and any(norm(c.func) in ("repr", "code_repr", "str") for c in ast.walk(k.value.body) if isinstance(c, ast.Call)):
+        if k.arg == "key" and isinstance(k.value, ast.Lambda) and any(norm(c.func) in CODE_TEXT for c in ast.walk(k.value.body) if isinstance(c, ast.Call)):
             return True
     a = e.args[0]
-    if isinstance(a, ast.Call) and norm(a.func) == "map" and a.args and norm(a.args[0]) in ("repr", "code_repr", "str"):
+    if isinstance(a, ast.Call) and norm(a.func) == "map" and a.args and norm(a.args[0]) in CODE_TEXT:
         return True
-    if isinstance(a, (ast.ListComp, ast.GeneratorExp)) and isinstance(a.elt, ast.Call) and norm(a.elt.func) in ("repr", "code_repr", "str"):
+    if isinstance(a, (ast.ListComp, ast.GeneratorExp)) and isinstance(a.elt, ast.Call) and norm(a.elt.func) in CODE_TEXT:
         return True
     return False
 
@@ -224,3 +231,79 @@ def fmt_optional(repo: Repo, rep):
                     else:
                         rep.violation("R-FMT-OPTIONAL", s.func, e, f"update detection compares the source tokens with `{short(src, 40)}`, not with the formatter-free value_to_token() output", construct=norm(e)[:60])
     rep.floor("R-FMT-OPTIONAL", "token comparisons at update sites", n, 4)
+
+
+GEN_MODULES = ("_adapter/", "_snapshot/", "_code_repr.py", "_utils.py", "_change.py", "_source_file.py")
+
+
+def _is_set_expr(e: ast.AST, setnames: Set[str]) -> bool:
+    if isinstance(e, (ast.Set, ast.SetComp)):
+        return True
+    if isinstance(e, ast.Call) and norm(e.func) in ("set", "frozenset"):
+        return True
+    if isinstance(e, ast.Name) and e.id in setnames:
+        return True
+    if isinstance(e, ast.BinOp) and isinstance(e.op, (ast.Sub, ast.BitAnd, ast.BitOr, ast.BitXor)):
+        def keysish(x):
+            return (isinstance(x, ast.Call) and isinstance(x.func, ast.Attribute) and x.func.attr == "keys") or _is_set_expr(x, setnames)
+        return keysish(e.left) or keysish(e.right)
+    if isinstance(e, ast.Call) and isinstance(e.func, ast.Attribute) and e.func.attr in ("difference", "union", "intersection", "symmetric_difference"):
+        return True
+    return False
+
+
+def set_iter(repo: Repo, rep):
+    rep.rule(
+        "R-SET-ITER",
+        "in the code-generating modules (adapters, snapshot values, code repr, change application) no set-valued expression - a set literal/comprehension, set(), "
+        "a difference/union/intersection of key views - is iterated, listed, unpacked or joined without sorted(): its order follows the hash seed "
+        "(membership tests on sets are fine)",
+    )
+    n = 0
+    bad = 0
+    param_sets = {}
+    funcs = sorted([f for f in repo.pkg_funcs() if f.module.rel.startswith(GEN_MODULES)], key=lambda f: (f.parent is not None, f.key))
+    for f in funcs:
+        setnames: Set[str] = set(param_sets.get(f.key, ()))
+        for _ in range(2):
+            for x in body_nodes(f.node):
+                if isinstance(x, ast.Assign) and len(x.targets) == 1 and isinstance(x.targets[0], ast.Name) and _is_set_expr(x.value, setnames):
+                    setnames.add(x.targets[0].id)
+                if isinstance(x, ast.AugAssign) and isinstance(x.target, ast.Name) and isinstance(x.op, (ast.Sub, ast.BitAnd, ast.BitOr)) and _is_set_expr(x.value, setnames):
+                    setnames.add(x.target.id)
+        # sets handed to nested helper functions
+        for x in body_nodes(f.node):
+            if isinstance(x, ast.Call) and isinstance(x.func, ast.Name):
+                g = f.module.funcs.get(f.qualname + "." + x.func.id)
+                if g is not None:
+                    for i, a in enumerate(x.args):
+                        if _is_set_expr(a, setnames) and i < len(g.params):
+                            param_sets.setdefault(g.key, set()).add(g.params[i])
+        for x in body_nodes(f.node):
+            it = None
+            if isinstance(x, (ast.For, ast.comprehension)):
+                it = x.iter
+            elif isinstance(x, ast.Call) and norm(x.func) in ("list", "tuple", "enumerate", "zip", "iter", "map") and x.args:
+                cands = [a for a in x.args if _is_set_expr(a, setnames)]
+                it = cands[0] if cands else None
+            elif isinstance(x, ast.Call) and isinstance(x.func, ast.Attribute) and x.func.attr == "join" and x.args:
+                it = x.args[0]
+            elif isinstance(x, ast.Starred):
+                it = x.value
+            if it is None:
+                continue
+            if _is_set_expr(it, setnames):
+                n += 1
+                # a comprehension that only builds another set is order-insensitive
+                from ..model import parent as _parent
+
+                p = _parent(x)
+                if isinstance(x, ast.comprehension) and isinstance(p, ast.SetComp):
+                    continue
+                bad += 1
+                rep.violation("R-SET-ITER", f, it, f"{f.qualname} iterates the set `{short(it, 40)}` without sorted(): the order of what is generated from it (e.g. the keys inserted into a dict display) changes with PYTHONHASHSEED", construct=norm(it)[:60])
+    if not bad:
+        rep.ok("R-SET-ITER", repo.func("_utils.py::value_to_token"), None, f"no unsorted iteration of a set in the code-generating modules ({n} order-insensitive uses)", site="code-generating modules: set iteration")
+    probe = ast.parse("for k in new.keys() - old.keys():\n    pass").body[0]
+    if not _is_set_expr(probe.iter, set()):
+        rep.undecided("R-SET-ITER", "positive example not matched (rule broken)")
